@@ -9,7 +9,7 @@ namespace TransEquiv
 /-- one `Read` through the limited reader: the counter grows by what the source delivered, and the error is replaced by
 `CloseMessageTooLarge` exactly when the counter has passed the limit -/
 theorem limitedReader_Read_eq (p : Bytes) (N M k : Nat) (e : Option GoErr) :
-    Trans.limitedReader_Read p (N : Int) (M : Int) ((k : Int), e)
+    Trans.limitedReader_Read p (c_N := (N : Int)) (c_M := (M : Int)) (srcRead := ((k : Int), e))
       = (((N + k : Nat) : Int), (k : Int), if N + k > M then some (GoErr.status 1009) else e) := by
   unfold Trans.limitedReader_Read
   by_cases h : N + k > M
@@ -28,7 +28,7 @@ def errOfStatus : Limited.Status → Option GoErr
 `CloseMessageTooLarge`, and otherwise hands on the counter the translated `Read` stored -/
 theorem copy_step_eq (M k n w : Nat) (st : Limited.Status) (rest : List (Nat × Limited.Status)) (p : Bytes) :
     Limited.copy M ((k, st) :: rest) n w =
-      (if (Trans.limitedReader_Read p (n : Int) (M : Int) ((k : Int), errOfStatus st)).2.2 = some (GoErr.status 1009)
+      (if (Trans.limitedReader_Read p (c_N := (n : Int)) (c_M := (M : Int)) (srcRead := ((k : Int), errOfStatus st))).2.2 = some (GoErr.status 1009)
         then (w + k, .tooLarge)
         else match st with
           | .more => Limited.copy M rest (n + k) (w + k)
@@ -40,7 +40,7 @@ theorem copy_step_eq (M k n w : Nat) (st : Limited.Status) (rest : List (Nat × 
   · simp [h]
   · cases st <;> simp [h, errOfStatus]
 
-example : Trans.limitedReader_Read [] 100 128 (29, none) = (129, 29, some (.status 1009)) := by decide
-example : Trans.limitedReader_Read [] 100 128 (28, none) = (128, 28, none) := by decide
+example : Trans.limitedReader_Read [] (c_N := 100) (c_M := 128) (srcRead := (29, none)) = (129, 29, some (.status 1009)) := by decide
+example : Trans.limitedReader_Read [] (c_N := 100) (c_M := 128) (srcRead := (28, none)) = (128, 28, none) := by decide
 
 end TransEquiv
